@@ -419,7 +419,9 @@ pub fn check_output(model: &Model, bytes: &[u8]) -> Result<Vec<Mismatch>, String
                     ExtKind::Memory => "export(memory)",
                     _ => "export",
                 };
-                mm.push(Mismatch::new("entity_missing", site, e.name.clone()))
+                // an export added through the API that does not appear is a C30 matter as well
+                let site = if e.added { format!("{site}(added)") } else { site.to_string() };
+                mm.push(Mismatch::new("entity_missing", &site, e.name.clone()))
             }
             Some(o) => {
                 if o.kind != e.kind {
